@@ -129,7 +129,9 @@ fn check(s: &str, acc: &mut Acc) -> Result<bool, String> {
         (None, Ref::NoStyle) => {}
         (Some(g), Ref::Style(w)) => {
             let gm = sgr::from_style(*g);
-            if gm != *w {
+            // (palette colour k and 256-colour index k < 16 denote the same colour: `38;5;1` may come
+            // back as the named red)
+            if gm.canon() != w.canon() {
                 return Err(format!("parse({s:?}) = [{}], applying the codes in order gives [{}]", gm.describe(), w.describe()));
             }
         }
